@@ -111,6 +111,39 @@ Theorem C19_sel_zipped_refuted :
 Proof. exists (zsel_witness 1). vm_compute. repeat split. Qed.
 Print Assumptions C19_sel_zipped_refuted.
 
+(* Two more valid requests for which no dataset is produced at all (the model records the library's
+   refusal: xr.merge cannot align two sizes of one dimension name; a bare 2-D ndarray cannot be assigned
+   without dimension names): known findings C19-axis-name-reused-with-different-sizes and
+   C19-unmapped-array-output-not-storable. *)
+Definition mk1 (name out arg idx : string) : mfunc :=
+  {| fname := s name; fouts := [s out]; fparams := [s arg]; fbound := []; fdefaults := [];
+     fspec := Some {| ins := [ {| aname := s arg; axes := [Some (s idx)] |} ];
+                      outs := [ {| aname := s out; axes := [Some (s idx)] |} ] |};
+     fint := []; fret := [] |}.
+
+Definition conflict_witness : case :=
+  {| c_funcs := [ mk1 "f" "y" "x" "i"; mk1 "g" "w" "u" "i" ];
+     c_inputs := [ (s "x", VA {| shp := [3]; dat := [s "x_0"; s "x_1"; s "x_2"] |});
+                   (s "u", VA {| shp := [2]; dat := [s "u_0"; s "u_1"] |}) ];
+     c_internal := []; c_li := true; c_kind := 0 |}.
+
+Theorem C19_axis_size_conflict_refuted :
+  exists c, valid c = true /\ spec_ok c (run c) = false.
+Proof. exists conflict_witness. vm_compute. split; reflexivity. Qed.
+Print Assumptions C19_axis_size_conflict_refuted.
+
+Definition plain_array_witness : case :=
+  {| c_funcs := [ mk1 "f" "y" "x" "i";
+                  {| fname := s "g"; fouts := [s "t"]; fparams := [s "y"]; fbound := []; fdefaults := [];
+                     fspec := None; fint := []; fret := [2; 2] |} ];
+     c_inputs := [ (s "x", VA {| shp := [2]; dat := [s "x_0"; s "x_1"] |}) ];
+     c_internal := []; c_li := true; c_kind := 0 |}.
+
+Theorem C19_unmapped_array_output_refuted :
+  exists c, valid c = true /\ spec_ok c (run c) = false.
+Proof. exists plain_array_witness. vm_compute. split; reflexivity. Qed.
+Print Assumptions C19_unmapped_array_output_refuted.
+
 (* non-vacuity of the executable statement: the same request satisfies everything else (kind 0) *)
 Example C19_example_label_ok :
   valid (zsel_witness 0) = true /\ spec_ok (zsel_witness 0) (run (zsel_witness 0)) = true.
